@@ -150,6 +150,8 @@ class Facts:
                     # a client thread waits for the cross-process management lock (which only a worker in its time-out branch,
                     # a spawning submit or a resize can hold)
                     sig["user_blocked_on_management_lock"] = frames[1][2]
+        # the manager thread runs a future's done-callbacks and is stuck inside one of them (e.g. a callback calling submit())
+        sig["mgr_in_done_callback"] = any(classify_thread(fr)[0] == "mgr" and any(f[2] == "_invoke_callbacks" for f in fr) for fr in threads)
         sig["mgr_in"] = roles.get("mgr", [None])[0]
         sig["feeder_in"] = roles.get("feeder", [None])[0]
         users = [u for u in roles.get("user", []) if u]
